@@ -52,7 +52,7 @@ def main():
     items = []
     for tid, tmpl in ASSERTS:
         for bl in ((2, 3, 4) if tier == "quick" else (1, 2, 3, 4, 5)):
-            items.append(dict(tid=tid, bl=bl, n=(60 if tier == "quick" else 600)))
+            items.append(dict(tid=tid, bl=bl, n=(60 if tier == "quick" else 1500)))
     for tid, _ in DECLS:
         for bl in (2, 3):
             items.append(dict(tid=tid, bl=bl, n=2))
